@@ -7,7 +7,7 @@ HOOK_COMMITS = subprocess.run(["git", "-C", "/repo", "log", "--format=%H %s", "-
 
 CHECKS = {
  "C01": dict(cat="exploration", design="§5 C01",
-   text="Round-trip + position oracle on ~1.9M generated texts per quick run: exhaustive token-class sequences up to length 3 over a 93-class alphabet that includes every error maker, BOM/NUL/NBSP/VT/NEL/ZWSP/CR and nested-comment lexemes, grammar-generated programs under three trivia policies, token mutations, every prefix of the seed files, windows of the 39 vendored LLVM files, character noise, preprocessor regions with junk, 15 nesting shapes up to depth 250 and 10^4-fold token repetition. The property is universally quantified over all UTF-8 strings, so exploration with an exact oracle is the right level; no absence proof.",
+   text="Round-trip + position oracle on ~1.9M generated texts per quick run: exhaustive token-class sequences up to length 3 over a 93-class alphabet that includes every error maker, BOM/NUL/NBSP/VT/NEL/ZWSP/CR and nested-comment lexemes, grammar-generated programs under three trivia policies, token mutations, every prefix of the seed files, windows of the 39 vendored LLVM files, character noise, preprocessor regions with junk, 15 nesting shapes up to depth 250 , 10^4-fold token repetition, and every lexeme that opens no bracket repeated 150000 times on a 512 KiB stack (stack use must not grow with the length of a text without nesting). The property is universally quantified over all UTF-8 strings, so exploration with an exact oracle is the right level; no absence proof.",
    note="trusts rowan's text()/text_range(); explores short exhaustive + structured random inputs, not all strings",
    technique="property-based testing: round-trip oracle over exhaustive token-class sequences and grammar/mutation generators"),
  "C02": dict(cat="exploration", design="§5 C02",
